@@ -17,9 +17,20 @@ type Comment struct {
 	Text  string `json:"text"`
 	// SameLine keeps the comment on the line of the previous token (trailing position)
 	SameLine bool `json:"same_line,omitempty"`
+	// NoPad writes the text directly after the marker (`/*/ x */`, `//x`, `#x`)
+	NoPad bool `json:"no_pad,omitempty"`
 }
 
 func (c Comment) String() string {
+	if c.NoPad {
+		switch c.Style {
+		case "#", "//":
+			return c.Style + c.Text
+		case "/**":
+			return "/**" + c.Text + "**/"
+		}
+		return "/*" + c.Text + "*/"
+	}
 	switch c.Style {
 	case "#":
 		return "# " + c.Text
@@ -186,6 +197,38 @@ func Canonical(toks []gen.Tok) string { return Render(toks, Plan{Mode: "canonica
 // annotation: it does not start (after trimming " */#") with "@", "FASTLY" or "falco-".
 func NewComment(r *rand.Rand, serial int) Comment {
 	style := []string{"#", "//", "/*", "#", "//", "/*", "/**"}[r.Intn(7)]
-	words := []string{"note", "x y", "todo: z", "a=b", "50% off", "quote \"q\"", "brace { }", "semi;colon", "é"}
+	words := []string{"note", "x y", "todo: z", "a=b", "50% off", "quote \"q\"", "brace { }", "semi;colon", "é", "dir C:\\"}
 	return Comment{Style: style, Text: fmt.Sprintf("c%d %s", serial, words[r.Intn(len(words))])}
+}
+
+// hostile texts: ordinary comments (after trimming " */#" they start with neither "@", "FASTLY" nor
+// "falco-ignore") that merely look like something meaningful: bare scope names, annotation
+// keywords in the middle of a sentence, a trailing backslash.
+var hostileTexts = []string{
+	"Error", "deliver", "log", "recv", "fetch", "hit", "miss", "pass", "hash", "recv, deliver", "scope: recv", "scope: deliver,log",
+	"see falco-ignore docs", "TODO falco-ignore-next-line?", "x falco-ignore-start", "y falco-ignore-end", "ignore", "ignore-next-line",
+	"not @scope: recv", "mail a@recv", "plugin: foo", "skip", "the FASTLY recv macro", "no #FASTLY deliver here", "process", "suite: s", "tag: prod",
+	"path C:\\", "ends with a backslash \\", "\\", "return(pass);", "set req.http.H0 = \"x\";", "}", "{", "\"", "'", "{\"", "\"}",
+}
+
+// NewPlainComment builds an ordinary comment without a serial prefix: half of them carry a hostile text.
+func NewPlainComment(r *rand.Rand, serial int) Comment {
+	c := NewComment(r, serial)
+	if r.Intn(2) == 0 {
+		c.Text = hostileTexts[r.Intn(len(hostileTexts))]
+	}
+	if r.Intn(4) == 0 {
+		// no padding between marker and text; a few texts only make sense that way
+		c.NoPad = true
+		if r.Intn(2) == 0 {
+			c.Text = []string{"", "/", "/ odd ", "*", "* star *", "/*", "//", "#", "x"}[r.Intn(9)]
+		}
+		if t := strings.TrimLeft(c.Text, " */#"); strings.HasPrefix(t, "@") || strings.HasPrefix(strings.ToUpper(t), "FASTLY") || strings.HasPrefix(t, "falco-") {
+			c.NoPad = false
+		}
+		if c.Style == "/**" && strings.HasPrefix(c.Text, "/") {
+			c.Style = "/*" // `/**/` is already a complete comment
+		}
+	}
+	return c
 }
